@@ -211,16 +211,62 @@ def setup(world, cfg, record=None):
   random.seed(g[0] if g else 12345)
   algo = build(world, cfg)
   if record is not None:
-    # record what the real reproduction returns (step -> children): the oracle table of the model
-    orig = algo.reproduction
+    # record what the real reproduction returns (step -> children) and every PRNG draw it makes
+    # (step -> log entries of harness.c14.RecRandom): the oracle tables of the model
+    target = algo.generator if cfg['kind'] == 'real' and cfg['name'] == 'dedup' else algo
+    orig = target.reproduction
+    log = []
+    install_recorders(orig, log)
 
     def recording(pop, global_state, step):
+      before = len(log)
       out = orig(pop, global_state=global_state, step=step)
-      record[step] = [world.idx(d) for d in out]
+      record.setdefault('table', {})[step] = [world.idx(d) for d in out]
+      record.setdefault('events', {})[step] = list(log[before:])
       return out
-    algo.rebind(reproduction=recording)
+    target.rebind(reproduction=recording)
   algo.setup(world.spec)
   return algo
+
+
+_REC_CLASS = []
+
+
+def rec_random_class():
+  """harness.c14.RecRandom (logs every public PRNG call as index events) with `getrandbits` overridden
+  too, so that random.Random keeps its getrandbits-based `_randbelow`: the recorded instance draws exactly
+  what a plain random.Random(seed) draws, and recorded and unrecorded runs of an algorithm coincide."""
+  if not _REC_CLASS:
+    from harness import c14
+
+    class RecRandomSameStream(c14.RecRandom):
+      def getrandbits(self, k):
+        return super().getrandbits(k)
+    _REC_CLASS.append(RecRandomSameStream)
+  return _REC_CLASS[0]
+
+
+def install_recorders(op, log):
+  """Replaces the seeded `random.Random` of every operation reachable from `op` by a recording one."""
+  import random
+  import pyglove as pg
+  cls = rec_random_class()
+  seen = set()
+
+  def walk(o):
+    if isinstance(o, (list, tuple)):
+      for x in o:
+        walk(x)
+      return
+    if not isinstance(o, pg.Object) or id(o) in seen:
+      return
+    seen.add(id(o))
+    r = getattr(o, '_random', None)
+    if r is not None and r is not random and o.sym_hasattr('seed') and o.sym_getattr('seed') is not None:
+      o._random = cls(o.sym_getattr('seed'), log)     # pylint: disable=protected-access
+    for _, v in o.sym_items():
+      walk(v)
+  walk(op)
 
 
 def nsga2_objectives(r):
@@ -440,6 +486,45 @@ def streams(world, cfg, n):
 
 def modelled_nsga2(cfg):
   return cfg['kind'] == 'real' and cfg['name'] == 'nsga2'
+
+
+def modelled_real(cfg):
+  if cfg['kind'] != 'real':
+    return False
+  if cfg['name'] == 'dedup':      # Deduping over the instantiated single-objective algorithms
+    return cfg['inner']['kind'] == 'real' and cfg['inner']['name'] in ('regularized_evolution', 'hill_climb')
+  return cfg['name'] in ('nsga2', 'regularized_evolution', 'hill_climb')
+
+
+def modelled_algo(cfg):
+  """The model configuration of a real algorithm, as built by pyglove/ext/evolution (pipeline texts
+  checked by translate/t_c15.py)."""
+  if cfg['name'] == 'dedup':
+    # hash_fn = index of the DNA: `d % H` with H beyond the space is the identity
+    return {'kind': 'dedup', 'inner': modelled_algo(cfg['inner']), 'hash': 1000003,
+            'max_dup': cfg.get('max_dup', 1), 'max_att': cfg.get('max_att', 20), 'auto': False}
+  init = {'kind': 'random', 'seed': cfg['seed'], 'seeded': True}
+  if cfg['name'] == 'nsga2':
+    return {'kind': 'evo', 'init': init, 'init_size': cfg['population_size'] * nsga2_init_factor(),
+            'repro': ['table', 1], 'update': ['nsga2', cfg['population_size']]}
+  if cfg['name'] == 'regularized_evolution':
+    return {'kind': 'evo', 'init': init, 'init_size': cfg['population_size'],
+            'repro': ['c14reg', cfg['tournament_size']], 'update': ['c14last', cfg['population_size']]}
+  if cfg['name'] == 'hill_climb':
+    return {'kind': 'evo', 'init': init, 'init_size': cfg['init_population_size'],
+            'repro': ['c14hill', cfg['batch_size']], 'update': ['c14top', 1]}
+  raise ValueError(cfg['name'])
+
+
+def real_view(obs):
+  """What the model predicts of regularized_evolution / hill_climb (and of Deduping over them): counters,
+  generation, population, de-duplication memory."""
+  if 'error' in obs:
+    return obs
+  if 'cache' in obs:
+    return {'np': obs['np'], 'nf': obs['nf'], 'cache': obs['cache'], 'feedback_driven': obs['feedback_driven'],
+            'inner': real_view(obs['inner'])}
+  return {'np': obs['np'], 'nf': obs['nf'], 'gen': obs['gen'], 'pop': obs['pop']}
 
 
 _NSGA2_FACTOR = []
@@ -748,17 +833,19 @@ class C15(Prop):
   def model_request(self, case):
     cfg = case['algo']
     world = world_of(case['dims'])
-    if modelled_nsga2(cfg):
-      # NSGA2's selection is in the model (PgModel/Nsga2.lean); the mutator's children are an oracle table
-      table = {}
-      run_live(world, cfg, case['events'], record=table)
-      n_init = cfg['population_size'] * nsga2_init_factor()
-      algo = {'kind': 'evo', 'init': {'kind': 'random', 'seed': cfg['seed'], 'seeded': True},
-              'init_size': n_init, 'repro': ['table', 1], 'update': ['nsga2', cfg['population_size']]}
+    if modelled_real(cfg):
+      # the real operators are in the model (NSGA2: PgModel/Nsga2.lean with the mutator's children as an
+      # oracle table; regularized_evolution / hill_climb: the C14 operator model PgModel/Evo.lean over the
+      # recorded PRNG draws of every _evolve call)
+      rec = {}
+      run_live(world, cfg, case['events'], record=rec)
+      algo = modelled_algo(cfg)
       n = sum(1 for e in case['events'] if e[0] == 'p') + 4
+      n = min(4000, n * attempts_bound(algo) + 4)
       return {'algo': algo, 'space': list(range(len(world.dnas))), 'streams': streams(world, algo, n),
-              'events': case['events'], 'm': 0, 'cuts': list(case.get('cuts', [])),
-              'table': {str(k): v for k, v in table.items()}}
+              'events': case['events'], 'm': 0, 'cuts': list(case.get('cuts', [])), 'dims': list(case['dims']),
+              'table': {str(k): v for k, v in rec.get('table', {}).items()},
+              'events_by_step': {str(k): v for k, v in rec.get('events', {}).items()}}
     if has_real(cfg):
       return None            # real reproduction operators: oracle only
     m = case.get('m', 3)
@@ -768,8 +855,9 @@ class C15(Prop):
             'events': case['events'], 'm': m, 'cuts': list(case.get('cuts', []))}
 
   def project_impl(self, case, impl_out):
-    if modelled_nsga2(case['algo']) and 'model' in impl_out:
-      return {'ks': [{'live': nsga2_view(e['live']), 'rec': nsga2_view(e['rec']), 'hist': e['hist'],
+    if modelled_real(case['algo']) and 'model' in impl_out:
+      view = nsga2_view if modelled_nsga2(case['algo']) else real_view
+      return {'ks': [{'live': view(e['live']), 'rec': view(e['rec']), 'hist': e['hist'],
                       'live_next': [], 'rec_next': []} for e in impl_out['model']['ks']]}
     return Prop.project_impl(self, case, impl_out)
 
